@@ -206,10 +206,17 @@ def apply_edit(root, st):
 
 def cli_args(root, st, aux):
     """-> (command name, argv).  aux: directory for pattern files / flatten destination"""
+    return _cli_args(root, st, aux)
+
+
+def _cli_args(root, st, aux):
     op = st["op"]
     r = os.path.join(root, st.get("root", "")) if st.get("root") else root
     if st.get("spell") == "slash":          # the same folder, typed with a trailing separator
         r = r + os.sep
+    if st.get("verbose") and op in ("create", "verify", "verifydh", "verifypl", "diff", "flatten", "info"):
+        cmd, a = _cli_args(root, {k: v for k, v in st.items() if k != "verbose"}, aux)
+        return cmd, a + ["-v"]
     if op == "create":
         a = [r]
         for f in st.get("fmts") or []:
